@@ -53,6 +53,15 @@ def run(ctx):
     jobs.append({'seeds': ['C=C', 'CC'], 'rules': [SMARTS[0], SMARTS[6]], 'timeout': 300})
     jobs.append({'seeds': ['C=C'], 'rules': [SMARTS[4], SMARTS[6]], 'timeout': 300})
     jobs.append({'seeds': ['C'], 'rules': [SMARTS[0], RING[0]], 'timeout': 300})
+    # a network generated after another one in the same process, the same species written with another atom order
+    for warm, seeds, rules in ((['CCO'], ['OCC'], [RING[1]]), (['CO'], ['OC'], [RING[0]]), (['CC=C'], ['C=CC'], [RING[0], RING[1]]),
+                               (['CCO'], ['C(O)C'], [RING[3], RING[2]]), (['OCC'], ['CCO'], [SMARTS[1], SMARTS[3]]), (['CCC'], ['CC'], [RING[0]])):
+        jobs.append({'seeds': seeds, 'rules': rules, 'warm': [warm], 'timeout': 300})
+    for _ in range(ctx.n(6, 60)):
+        a = rng.choice(['CCO', 'CCN', 'CC=C', 'COC', 'CC(C)O', 'C=CO'])
+        b = {'CCO': 'OCC', 'CCN': 'NCC', 'CC=C': 'C=CC', 'COC': 'C(OC)', 'CC(C)O': 'OC(C)C', 'C=CO': 'OC=C'}[a]
+        pool = RING if rng.random() < 0.7 else SMARTS[:4]
+        jobs.append({'seeds': [b], 'rules': rng.sample(pool, rng.randint(1, 2)), 'warm': [[a]], 'timeout': 300})
     # (acyclic seeds only: a reaction SMARTS with two product templates does not open a ring bond the way the RING edit does -
     #  RDKit puts the still-connected molecule into each product template - so the two forms are not twins on rings)
     # twins: the same rule given as reaction SMARTS and as RING text (incl. scission written as `decrease bond order` on a single
